@@ -417,6 +417,29 @@ func checkC03(c *Ctx) (string, bool, []string) {
 		return rule, false, assume
 	}
 
+	// A caller may edit the tree a parse gave it. Before anything else is
+	// parsed, scale the sign factors of a few parsed expressions in place (-a
+	// becomes 7 * a in the caller's own tree); every later parse is compared
+	// with the reference as usual, so an edit that leaks into them shows there.
+	{
+		edits := 0
+		for _, t := range []string{"-a", "+a", "x / -y", "x * -f(y) + -(z)", "-(a + b) * +c", "fn(-a, +b)", "a AND -b > 1"} {
+			e, err := influxql.ParseExpr(t)
+			if err != nil {
+				r.Violation("chain-rejected", map[string]interface{}{"input": t, "why": err.Error()})
+				continue
+			}
+			influxql.WalkFunc(e, func(n influxql.Node) {
+				if b, ok := n.(*influxql.BinaryExpr); ok && b.Op == influxql.MUL {
+					if l, ok := b.LHS.(*influxql.IntegerLiteral); ok && (l.Val == -1 || l.Val == 1) {
+						l.Val = 7
+						edits++
+					}
+				}
+			})
+		}
+		r.Count("caller-edits-of-sign-factors-before-the-run", int64(edits))
+	}
 	type job struct {
 		toks    []c03tok
 		compact bool
@@ -568,9 +591,30 @@ func checkC03(c *Ctx) (string, bool, []string) {
 			k = rg.Range(13, 48) // long chains: deep left edges
 			local["long-chains"]++
 		}
+		if i%16 == 8 {
+			k = rg.Range(49, 260) // very long chains
+			local["very-long-chains"]++
+		}
 		ops := make([]int, k)
 		for j := range ops {
 			ops[j] = rg.Intn(nops)
+		}
+		if i%16 == 8 || i%32 == 0 {
+			// a deep left spine: operators of one precedence level (two adjacent
+			// levels in half of them), so that almost every operator sits on the
+			// left edge of the tree
+			lv := rg.Range(1, 5)
+			two := rg.Bool()
+			var pool []int
+			for oi, o := range c03ops {
+				if !o.regex && (o.level == lv || (two && o.level == lv+1)) {
+					pool = append(pool, oi)
+				}
+			}
+			for j := range ops {
+				ops[j] = pool[rg.Intn(len(pool))]
+			}
+			local["deep-left-spines"]++
 		}
 		// random properly nested parens
 		var parens [][2]int
